@@ -101,7 +101,7 @@ def gen_fast_case(rng, malformed=False, small=False):
              for k in range(T)]
     draws = [valid_draws(rng, sum(r[k] for r in jds)) for k in range(T)] if jds else []
     return {"kind": "fast", "jds": jds, "sizes": sizes, "builds": builds, "names": names, "draws": draws,
-            "handshake": not malformed}
+            "handshake": not malformed, "as_tuple": [rng.random() < 0.4 for _ in builds]}
 
 
 def gen_custom_case(rng, malformed=False, small=False):
@@ -162,7 +162,7 @@ def gen_custom_case(rng, malformed=False, small=False):
                 jds[rng.randrange(N)][c2] += 1
     draws = [valid_draws(rng, sum(r[k] for r in jds)) for k in range(col)]
     return {"kind": "custom", "jds": jds, "sizes": sizes, "orbits": orbits, "builds": builds, "names": names,
-            "draws": draws, "handshake": not malformed}
+            "draws": draws, "handshake": not malformed, "as_tuple": [rng.random() < 0.4 for _ in builds]}
 
 
 class ShuffleScript:
@@ -224,9 +224,13 @@ def run_generator(case, path="direct", algo=None):
     jds_before = list(jds)
     calls = []
 
+    as_tuple = case.get("as_tuple") or []
+
     def wrap(k, f):
         def g(vs):
             r = f(vs)
+            if k < len(as_tuple) and as_tuple[k] and not _is_bare(r):
+                r = tuple(tuple(e) for e in r)        # the same edges, handed back as a tuple of tuples instead of a list
             calls.append({"top": k, "verts": list(vs), "result": r})
             return r
         return g
